@@ -14,7 +14,7 @@ ASSUMPTIONS = [
     "attribute deletion through a link is not part of the statement and is not generated",
 ]
 GATES = ["mon.C20.shadow", "mon.C20.structure", "C20.link_to_link", "C20.link_other_tree", "C20.ctor_kwargs", "C20.ctor_kwargs_on_link_target", "C20.write_via_link", "C20.write_via_target",
-         "C20.missing_attr_raises", "C20.struct_on_link", "C20.struct_on_target", "C20.veto", "C20.falsy_target"]
+         "C20.missing_attr_raises", "C20.struct_on_link", "C20.struct_on_target", "C20.veto", "C20.falsy_target", "C20.property_target", "C20.equal_but_distinct_value"]
 
 NAMES = ["foo", "bar", "baz", "x1", "value_", "lng", "k9", "_p", "__q", "name", "été", "data"]
 
@@ -53,7 +53,11 @@ class Hist:
             n = F.FalsyNode("p%d" % i)  # a target that is falsy (defines __bool__/__len__) is still a target
             self.shadow[i] = {"name": "p%d" % i}
             self.ctx.count("C20.falsy_target")
-        elif r < 0.7:
+        elif r < 0.8:
+            n = F.PropNode("p%d" % i)  # 'lng' is a property with setter on the target's class
+            self.shadow[i] = {"name": "p%d" % i}
+            self.ctx.count("C20.property_target")
+        elif r < 0.9:
             n = F.FalsyAny(name="p%d" % i)  # falsy while it has no children
             self.shadow[i] = {"name": "p%d" % i}
             self.ctx.count("C20.falsy_target")
@@ -130,15 +134,19 @@ class Hist:
                     ctx.violation("C20/target-changed", "shadow-store", self.case(), expected=self.target_of[i], observed="other object")
                     return False
             for name in NAMES:
+                same_obj = True
                 try:
-                    v = ("val", getattr(n, name))
+                    got = getattr(n, name)
+                    v = ("val", got)
+                    if name in sh and isinstance(sh[name], (list, dict, bool, int, float)):
+                        same_obj = got is sh[name] and type(got) is type(sh[name])
                 except AttributeError:
                     v = ("missing",)
                     ctx.count("C20.missing_attr_raises")
                 except BaseException as e:  # noqa: B902
                     v = ("exc", type(e).__name__)
                 exp = ("val", sh[name]) if name in sh else ("missing",)
-                if v != exp:
+                if v != exp or not same_obj:
                     ctx.violation("C20/forwarding/%s" % ("link" if i in self.target_of else "target"), "shadow-store", self.case(),
                                   expected={"node": i, "name": name, "value": repr(exp)}, observed=repr(v))
                     return False
@@ -162,7 +170,14 @@ class Hist:
         if r < 0.55:
             i = rng.randrange(k)
             name = rng.choice(NAMES)
-            val = ("w", len(self.log), rng.randrange(1000))
+            if rng.random() < 0.35:
+                # equal-but-distinct objects: the target must hold the object written last, not an equal older one
+                val = rng.choice([[1], [1], [], {"k": 1}, True, 1, 1.0, 0, 0.0, False, "s", ("t",)])
+                if isinstance(val, (list, dict)):
+                    val = type(val)(val)  # a fresh object each time
+                self.ctx.count("C20.equal_but_distinct_value")
+            else:
+                val = ("w", len(self.log), rng.randrange(1000))
             self.log.append(["write", i, name])
             pre = self.rec.snapshot()
             setattr(self.nodes[i], name, val)
@@ -241,7 +256,7 @@ def run_history(ctx, hid, rng, steps):
 
 def run(ctx):
     T = ctx.tier == "thorough"
-    nh = (40000 if T else 2000) // ctx.nshards + 1
+    nh = (200000 if T else 2000) // ctx.nshards + 1
     for i in range(nh):
         hid = [ctx.seed, ctx.shard, i]
         run_history(ctx, hid, ctx.rng("hist", i), (100 if T else 40))
